@@ -22,6 +22,54 @@ from .pe import Interp, ModuleEnv, PRaise
 ANYSET = None
 
 
+def regex_sample(pattern: str) -> str:
+    """one text matched by `pattern` (repeats taken once, first branch)"""
+    try:
+        import re._parser as sre  # type: ignore
+    except ImportError:  # pragma: no cover
+        import sre_parse as sre  # type: ignore
+    try:
+        tree = sre.parse(pattern)
+    except Exception:  # noqa: BLE001
+        return ""
+
+    def one(items):
+        out = ""
+        for op, av in items:
+            name = str(op)
+            if name == "LITERAL":
+                out += chr(av)
+            elif name == "NOT_LITERAL":
+                out += "x" if chr(av) != "x" else "y"
+            elif name == "ANY":
+                out += "x"
+            elif name == "IN":
+                neg = any(str(o) == "NEGATE" for o, _ in av)
+                ch = "x"
+                if not neg:
+                    for o, a in av:
+                        if str(o) == "LITERAL":
+                            ch = chr(a)
+                            break
+                        if str(o) == "RANGE":
+                            ch = chr(a[0])
+                            break
+                        if str(o) == "CATEGORY":
+                            ch = "7" if "DIGIT" in str(a) else (
+                                " " if "SPACE" in str(a) else "x")
+                            break
+                out += ch
+            elif name in ("MAX_REPEAT", "MIN_REPEAT", "POSSESSIVE_REPEAT"):
+                lo, _hi, sub = av
+                out += one(sub) * max(lo, 1)
+            elif name == "SUBPATTERN":
+                out += one(av[3])
+            elif name == "BRANCH":
+                out += one(av[1][0])
+        return out
+    return one(tree)
+
+
 class LexProbe:
     EXTRA = ["|", ";", "[", "]", "λ", " ", "\n", '"', "'", "(", "X", "v"]
 
@@ -226,6 +274,45 @@ class LexProbe:
                 cls = self.class_of(h)
                 out |= cls if cls is not ANYSET else {"<other>"}
         return out
+
+    def atoms(self):
+        """Multi-character texts the lexer module itself mentions: string
+        constants of length >= 2 and one sample match of every regular
+        expression it compiles or applies.  Laws are also probed on these
+        (a pre-pass that rewrites `#{...}#` is invisible to three-character
+        probes)."""
+        if getattr(self, "_atoms", None) is not None:
+            return self._atoms
+        import re as _re
+        out = []
+        env = ModuleEnv(self.pmod)
+        for n in ast.walk(self.mod.tree):
+            if isinstance(n, ast.Constant) and isinstance(n.value, str) \
+                    and 2 <= len(n.value) <= 8 and "\n" not in n.value:
+                out.append(n.value)
+            if isinstance(n, ast.Call):
+                d = ast.unparse(n.func)
+                if d.startswith("re.") and n.args:
+                    try:
+                        pat = self.it.eval(n.args[0], env, self.pmod)
+                    except Exception:  # noqa: BLE001
+                        continue
+                    if isinstance(pat, str):
+                        smp = regex_sample(pat)
+                        try:
+                            ok = smp and _re.search(pat, smp, _re.DOTALL)
+                        except _re.error:
+                            ok = False
+                        if ok:
+                            out.append(smp)
+        # docstrings and the like are not atoms the scanner reacts to; keep
+        # those that change the token stream compared with their characters
+        uniq = []
+        for a in out:
+            if a not in uniq and len(uniq) < 40:
+                uniq.append(a)
+        self._atoms = uniq
+        return uniq
 
     def neutral_prefixes(self):
         """representatives `a` that are complete tokens on their own: for
